@@ -84,7 +84,7 @@ theorem openFile_missing_inert (m : MemFs) (k : Key) (flag perm : Nat)
   simp [hl, hc]
 
 /-- Rename of an existing name onto itself is a successful no-op -/
-theorem rename_self (m : MemFs) (a : Key) (f : ObjId) (hl : m.lookup a = some f) :
+theorem rename_self (m : MemFs) (a : Key) (f : Nat) (hl : m.lookup a = some f) :
     m.rename a a = (m, .ok) := by
   unfold MemFs.rename; simp [hl]
 
